@@ -72,6 +72,7 @@ class Capture:
         self.inline_in = None         # (max score, [(id, universe, geom sexp)]) before inline_cells
         self.inline_out = None        # [(id, geom sexp)] after
         self.lattices = []            # one dict per develop_lattice call: inputs and the cells it created
+        self.written = None           # what writeT4Geometry was handed: {'surfs': {id: (kind, params, tr)}, 'vols': {...}, 'skipped': [...]}
         self.error = None
 
 
@@ -240,6 +241,23 @@ def convert_capture(deck_text, args=()):
                     rec['elements'] = out
                     cap.lattices.append(rec)
         return develop_lattice
+
+    def mk_write(orig):
+        def writeT4Geometry(dic_surface_t4, dic_volume, skipped_cells, ofile):
+            try:
+                surfs = {}
+                for k, sf in dic_surface_t4.items():
+                    tr = None
+                    if sf.transform is not None:
+                        tr = [float(x) for x in sf.transform[0].flatten('C')] + [float(x) for x in sf.transform[1].flatten('C')]
+                    surfs[int(k)] = (sf.type_surface.name, [float(x) for x in sf.param_surface], tr)
+                cap.written = {'surfs': surfs, 'vols': vols_struct(dic_volume), 'skipped': [int(k) for k in skipped_cells]}
+            except Exception as e:  # noqa
+                cap.error = 'write-capture: %r' % (e,)
+            return orig(dic_surface_t4, dic_volume, skipped_cells, ofile)
+        return writeT4Geometry
+
+    patch(M, 'writeT4Geometry', mk_write)
 
     import t4_geom_convert.Kernel.Volume.ConstructVolumeT4 as CVT
     patch(CVT, 'inline_cells', mk_inline)
